@@ -27,7 +27,16 @@ def enum_pred_table(ctx, fn, depth=0):
     return out
 
 
-def _eval(ctx, b, adt, variant, depth):
+def eval_fn(ctx, fn, oracle):
+    """abstractly evaluate a small function; `oracle(names, args, body, term)` supplies call results
+    (return None for 'unknown').  Result: the folded value of the return place or None."""
+    b = ctx.prog.bodies.get(fn)
+    if b is None:
+        return None
+    return _eval(ctx, b, None, None, 0, oracle=oracle, raw=True)
+
+
+def _eval(ctx, b, adt, variant, depth, oracle=None, raw=False):
     env = {1: ("self",)}
     bb = 0
     steps = 0
@@ -41,6 +50,8 @@ def _eval(ctx, b, adt, variant, depth):
         k = t["k"]
         if k == "return":
             v = env.get(0, UNKNOWN)
+            if raw:
+                return v if v != UNKNOWN else None
             return v[1] if v[0] == "bool" else None
         if k == "goto":
             bb = t["t"]
@@ -61,7 +72,13 @@ def _eval(ctx, b, adt, variant, depth):
             names = call_names(t)
             args = [_op(a, env) for a in t["args"]]
             res = UNKNOWN
-            if any(n.endswith(("::eq",)) and "PartialEq" in n for n in names) and len(args) == 2:
+            if oracle is not None:
+                r = oracle(names, args, b, t)
+                if r is not None:
+                    res = r
+            if res != UNKNOWN:
+                pass
+            elif any(n.endswith(("::eq",)) and "PartialEq" in n for n in names) and len(args) == 2:
                 a, c = args
                 if a[0] == "self" and c[0] == "variant":
                     res = ("bool", c[1] == variant)
@@ -105,9 +122,14 @@ def _op(o, env):
         return UNKNOWN
     base = env.get(pl[0], UNKNOWN)
     proj = [e for e in pl[1:] if e != "*"]
-    if not proj:
-        return base
-    return UNKNOWN
+    for e in proj:
+        if base[0] == "tuple" and e.startswith("f:") and e[2:].isdigit() and int(e[2:]) < len(base[1]):
+            base = base[1][int(e[2:])]
+        elif base[0] == "self":
+            base = ("self",) + base[1:] + (e,)
+        else:
+            return UNKNOWN
+    return base
 
 
 def _rv(ctx, b, rv, env, adt, variant):
@@ -116,10 +138,7 @@ def _rv(ctx, b, rv, env, adt, variant):
         return _op(rv["o"], env)
     if k == "ref":
         pl = rv["p"]
-        base = env.get(pl[0], UNKNOWN)
-        if all(e == "*" for e in pl[1:]):
-            return base
-        return UNKNOWN
+        return _op({"c": pl}, env)
     if k == "discr":
         pl = rv["p"]
         base = env.get(pl[0], UNKNOWN)
@@ -130,6 +149,8 @@ def _rv(ctx, b, rv, env, adt, variant):
         return UNKNOWN
     if k == "agg" and rv.get("agg") == "adt" and not rv["ops"]:
         return ("variant", rv["variant"])
+    if k == "agg" and rv.get("agg") == "tuple":
+        return ("tuple", [_op(o, env) for o in rv["ops"]])
     if k == "un" and rv["op"] == "Not":
         a = _op(rv["a"], env)
         if a[0] == "bool":
